@@ -20,5 +20,6 @@ fi
 if [ "$DEMO" != "-" ]; then
   (cd /tmp && PYTHONPATH="$WT" /venv/bin/python "$DEMO" >/dev/null 2>&1); echo "demo with patch: exit $?"
 fi
-cd /verif && VERIF_REPO="$WT" VERIF_QUIET=1 ./vcheck "$PROP" --tier "$TIER" 2>&1 | grep -E "VIOLATION|KNOWN-FINDING|MACHINERY|violations=" | head -8
-echo "check exit: $?"
+cd /verif && VERIF_REPO="$WT" VERIF_QUIET=1 ./vcheck "$PROP" --tier "$TIER" > "$WT.log" 2>&1; rc=$?
+grep -E "VIOLATION|KNOWN-FINDING|MACHINERY|violations=" "$WT.log" | head -6; rm -f "$WT.log"
+echo "check exit: $rc"
